@@ -26,6 +26,7 @@ import numpy as np
 import lib_qn as L
 
 LEAK_REL = 1e-10
+sampled = {}
 SIG_D1 = "add:centres-differ:labels"
 SIG_D2 = "conj_trans:charged:qntot-not-negated"
 SIG_D15 = "Mps.random:dead-end-blocks"
@@ -343,6 +344,10 @@ def part_constructors(run, rng, ncases, quick, t_end):
                 if tuple(sector) == tuple(q.max(axis=0)):
                     run.count("ctor:random:all-occupied-sector")
                 distinct.add(("random", len(spec), k, tuple(sector), str(m_max)))
+                if not sampled.get("ctor"):
+                    sampled["ctor"] = True
+                    run.sample(dict(part="constructor", op="Mps.random", spec=L.jsonable(spec), sector=sector, m_max=L.jsonable(m_max),
+                                    bond_dims=[int(x) for x in mps.bond_dims], verdict="in sector, labels valid"))
             elif what == "hartree":
                 cond = random_condition(rng, basis, k)
                 qn_idx = None if rng.random() < 0.4 else int(rng.integers(0, len(basis)))
@@ -661,6 +666,9 @@ def part_histories(run, rng, ncases, quick, t_end):
                         run.count(f"rejected:hist:shrink:{type(e).__name__}")
                         break
             distinct.add((len(spec), k, tuple(sector), tuple(h["op"] for h in hist)))
+            if len(hist) >= 4 and not sampled.get("hist"):
+                sampled["hist"] = True
+                run.sample(dict(part="history", spec=L.jsonable(spec), sector=sector, history=[h["op"] for h in hist]))
         except Exception as e:  # set-up call of the library failed: counted, never propagated
             run.count("rejected:part_histories:setup:" + type(e).__name__)
     return n_eval, len(distinct)
@@ -853,6 +861,10 @@ def part_evolve(run, rng, ncases, quick, t_end):
                     break
             if ok:
                 distinct.add((len(spec), k, tuple(sector), method.name, imag, use_mpdm))
+                if not sampled.get("evolve"):
+                    sampled["evolve"] = True
+                    run.sample(dict(part="evolve", spec=L.jsonable(spec), sector=sector, method=method.name, dt=L.jsonable(tau),
+                                    out_bond_dims=[int(x) for x in cur.bond_dims]))
         except Exception as e:  # set-up call of the library failed: counted, never propagated
             run.count("rejected:part_evolve:setup:" + type(e).__name__)
     return n_eval, len(distinct)
@@ -1173,6 +1185,9 @@ def part_tree(run, rng, ncases, quick, t_end):
                         run.count(f"rejected:tree:shrink:{type(e).__name__}")
                         break
             distinct.add((tuple(tdesc["parents"]), k, tuple(replay["sector"]), tuple(h["op"] for h in hist)))
+            if len(hist) >= 3 and not sampled.get("tree"):
+                sampled["tree"] = True
+                run.sample(dict(part="tree", tree=tdesc, sector=replay["sector"], history=[h["op"] for h in hist]))
         except Exception as e:  # set-up call of the library failed: counted, never propagated
             run.count("rejected:part_tree:setup:" + type(e).__name__)
     return n_eval, len(distinct)
@@ -1256,6 +1271,7 @@ def _directed_d15(run, rng):
 
 def search(run, rng, quick):
     L.quiet()
+    sampled.clear()
     t0 = time.time()
     budget = 50.0 if quick else 540.0
     sc = 1 if quick else 10
